@@ -70,7 +70,7 @@ def run(tier, seed):
                 ck.fail('a directory mode did not print a JSON document', rp | {'error': repr(e), 'stdout': {k: v[0][:200] for k, v in outs.items()}}, 'not_json')
                 ok = False
             if ok:
-                eid_of = {('%X' % p['ph']['eid']): n for n, p in d}
+                eid_of = {('%02X' % p['ph']['eid']): n for n, p in d}   # ids are displayed with at least two digits
                 list_eids = [k[2:] for k, _ in lst]
                 all_eids = [dict(doc)['Private Header'] and dict(dict(doc)['Private Header'])['Entry Id'][2:] for doc in alld]
                 ck.case(key=(tuple(files), tuple(base[2:])) if count >= 2 else None,
